@@ -68,6 +68,12 @@ CLAIMED = {
         technique="SCC of the monomorphic call graph + MIR dominators + type-containment finiteness argument",
         design_ref="DESIGN.md section 4 C18",
     ),
+    "C19": dict(
+        level="other",
+        text="Index provenance and control dependence of every calibration source-map write: expand_calibrations_inner (one entry per unmatched instruction iff a map is requested, enumerate index as source, len(body)-1 read after the add); append_calibration_expansion_output_inner (length sampled around every add, remove_target_index called exactly when the add did not grow the body with (length before this add) - (length before the expansion), range = before..after, entry pushed iff non-empty, same instructions added without a map); recursively_expand_inner (nested ranges around the extend of that very output, nested Unmodified target read before the push, instruction effects independent of build_source_map); remove_target_index against its index-shift specification (comparators decoded: start' = start - [t < start], end' = end - [t < end]; the relative index is computed from the unshifted start; retain predicate decision table); list_sources/list_targets mirror and contains dispatch tables. Contiguity/disjointness for concrete programs is not evaluated.",
+        technique="origin-expression provenance + dominance (read-before/after-write) + control dependence (post-dominators) over MIR; guard-comparator decoding against a shift specification; CFG decision tables",
+        design_ref="DESIGN.md section 4 C19",
+    ),
     "C20": dict(
         level="other",
         text="Guards, pairing and provenance of sequence-gate expansion: the expansion call is dominated by the parameter-count check (`!=` on the two parameter lists), the no-modifiers check, the cycle check whose result decides a branch, and the filter; DefGateSequence::expand is dominated by the qubit-count check; ExpansionStack::check errs exactly when the name is on the stack; with_gate_sequence pairs insert with a pop conditional on the insert and after the closure; the nested expansion runs inside that closure on the same stack with the checked definition's name; each produced gate takes name/modifiers from the element, parameters through substitute_variables, qubits through the formal->actual map built by an order-preserving zip; the keep-predicate's decision table over (specification variant, filter(name), referenced) equals `not sequence or not selected or referenced`, and the referenced set is seeded from exactly the unselected definitions. Reachability itself (petgraph) is assumed.",
